@@ -45,6 +45,7 @@ type muxProfile struct {
 	bigPayload  bool // occasionally payloads > 65535 bytes
 	manyData    bool // bias to WriteData (counter wrap, periods)
 	period      int  // 0 = draw 1..50 (and sometimes leave the default of 40)
+	noReAdd     bool // never add a PID again after it was removed (its continuity counter would restart, see C01)
 }
 
 type muxOp struct {
@@ -95,8 +96,8 @@ func drawESDescriptors(t *rapid.T, budget int) []*astits.Descriptor {
 	return ds
 }
 
-// drawMuxPES draws a PES the muxer can write.
-func drawMuxPES(t *rapid.T, prof muxProfile, afSize int) *ref.PES {
+// drawMuxPESHeader draws the header part of a PES the muxer can write.
+func drawMuxPESHeader(t *rapid.T) *ref.PES {
 	p := &ref.PES{Length: -1}
 	switch {
 	case gen.Chance(t, 25, "sid0"):
@@ -108,6 +109,11 @@ func drawMuxPES(t *rapid.T, prof muxProfile, afSize int) *ref.PES {
 		p.StreamID = gen.StreamIDWithHeader(t, "sid")
 		p.Opt = gen.PESOpt(t, gen.PESOptOpts{Writable: true, MaxSize: 60}, "opt")
 	}
+	return p
+}
+
+// drawMuxPayload draws the payload of p given the size of the adaptation field that precedes it.
+func drawMuxPayload(t *rapid.T, prof muxProfile, p *ref.PES, afSize int) {
 	hs := p.HeaderSize()
 	var n int
 	switch gen.Uniform(t, 8, "plk") {
@@ -140,7 +146,6 @@ func drawMuxPES(t *rapid.T, prof muxProfile, afSize int) *ref.PES {
 	} else {
 		p.Payload = gen.Bytes(t, n, "payload")
 	}
-	return p
 }
 
 func drawMuxOp(t *rapid.T, prof muxProfile) muxOp {
@@ -179,13 +184,37 @@ func drawMuxOp(t *rapid.T, prof muxProfile) muxOp {
 		}
 		op.descs = drawESDescriptors(t, budget)
 	case opData:
+		op.pes = drawMuxPESHeader(t)
+		hs := op.pes.HeaderSize()
 		afSize := 0
 		if gen.Chance(t, 45, "hasaf") {
 			budget := 100
 			if prof.bigAF && gen.Chance(t, 25, "bigaf") {
 				budget = 184
 			}
+			if budget > 184-hs {
+				if !prof.bigAF {
+					budget = 184 - hs
+				}
+			}
 			op.af = gen.AF(t, budget, gen.AFOpts{NoDisc: !prof.afDisc}, "af")
+			if gen.Chance(t, 20, "affill") {
+				// private data sized so that adaptation field + PES header fill the first packet exactly, or miss by 1 or 2
+				want := 184 - hs - rapid.IntRange(0, 2).Draw(t, "affillgap")
+				if prof.bigAF && gen.Chance(t, 30, "affillover") {
+					want = 184 - hs + rapid.IntRange(1, 2).Draw(t, "affillover_n")
+				}
+				base := op.af.Size()
+				if op.af.HasPrivate {
+					base -= len(op.af.Private)
+				} else {
+					base++
+				}
+				if n := want - base; n >= 0 && n <= 255 {
+					op.af.HasPrivate = true
+					op.af.Private = gen.Bytes(t, n, "affillpd")
+				}
+			}
 			if prof.bigAF && gen.Chance(t, 12, "hugeaf") {
 				// private data that cannot fit any packet
 				op.af.HasPrivate = true
@@ -193,7 +222,7 @@ func drawMuxOp(t *rapid.T, prof muxProfile) muxOp {
 			}
 			afSize = op.af.Size()
 		}
-		op.pes = drawMuxPES(t, prof, afSize)
+		drawMuxPayload(t, prof, op.pes, afSize)
 	case opPacket:
 		m := gen.TSPacket(t, "wp")
 		m.PID = 0x1f00 + uint16(rapid.IntRange(0, 15).Draw(t, "wppid"))
@@ -314,10 +343,11 @@ type stepRec struct {
 }
 
 type muxTrace struct {
-	period int
-	steps  []*stepRec
-	out    []byte
-	writes int // successful Write calls seen by the underlying writer
+	reAddAvoided int // Adds whose PID was changed because it had been used and removed before (noReAdd)
+	period       int
+	steps        []*stepRec
+	out          []byte
+	writes       int // successful Write calls seen by the underlying writer
 }
 
 func (tr *muxTrace) render() string {
@@ -398,7 +428,8 @@ func sniffAutoPID(replay []func(*astits.Muxer), idx int) (uint16, bool) {
 }
 
 // runMuxHistory applies the operations to a Muxer writing to w and returns the trace.
-func runMuxHistory(period int, setPeriod bool, ops []muxOp, w *writerSpy) *muxTrace {
+func runMuxHistory(period int, setPeriod bool, ops []muxOp, w *writerSpy, noReAddOpt ...bool) *muxTrace {
+	noReAdd := len(noReAddOpt) > 0 && noReAddOpt[0]
 	var opts []func(*astits.Muxer)
 	if setPeriod {
 		opts = append(opts, astits.MuxerOptTablesRetransmitPeriod(period))
@@ -428,6 +459,15 @@ func runMuxHistory(period int, setPeriod bool, ops []muxOp, w *writerSpy) *muxTr
 			pid := op.pid
 			if op.bad && len(cfg.streams) > 0 && !op.auto {
 				pid = cfg.streams[op.sel%len(cfg.streams)].pid // duplicate
+			}
+			if noReAdd && !op.auto && gens[pid] > 0 && cfg.find(pid) < 0 {
+				for gens[pid] > 0 || pid == pmtPID || cfg.find(pid) >= 0 {
+					pid++
+					if pid > 0x1ffe {
+						pid = 0x20
+					}
+				}
+				tr.reAddAvoided++
 			}
 			es := astits.PMTElementaryStream{ElementaryPID: pid, StreamType: op.stype, ElementaryStreamDescriptors: op.descs}
 			if op.auto {
